@@ -32,7 +32,7 @@ macro_rules! stats_struct {
 }
 stats_struct!(
     bodies, applies, deliveries, postponed, max_postponed_one_target, nested_replay, skipped_dead, skipped_dead_postponed, optional_taken, optional_skipped, polled_events, polled_in_tree, polled_reactions, payloads, payload_zero_listeners, payload_abort_release, doomed_insts, once_fired, once_retrigger_after_fire, revokes_applied, revoke_mid_dispatch, kills, kill_self, err_returns, excl_bodies, registrations, reg_dead_entity, slot_respawn, max_depth, roots, multi_kind_same_tree, sibling_reorder, frames, guaranteed_gc, guaranteed_poll, a1_ambiguous, ewr_bodies, ewr_nodata_ok, inserts_dead_at_apply, setifneq_equal, setifneq_diff, removal_reinsert_removal, sig_zero, entity_recursive_despawn, fifo_pairs_checked, sys_calls, reactors_per_key_ge7,
-    probes, ev_total, replayed, sys_recursive, acc_ops, single_acc, app_setup_again, bulk_collected, max_bulk, ewr_readd, res_removed, res_trigger_while_absent, excl_flushed_in_body, sig_zero_during_gc, sig_moved_into_entity
+    probes, ev_total, replayed, sys_recursive, acc_ops, single_acc, app_setup_again, bulk_collected, max_bulk, ewr_readd, res_removed, res_trigger_while_absent, excl_flushed_in_body, sig_zero_during_gc, sig_moved_into_entity, collected_observed, sig_zero_in_tree
 );
 
 #[derive(Clone, Debug)]
@@ -275,6 +275,11 @@ pub struct Checker<'a>
     gc_guaranteed_this_step: bool,
     in_direct_step: bool,
     in_gc: bool,
+    /// entities whose last signal clone was gone when a guaranteed collection started: they must be gone when it is over
+    gc_must: Vec<EntId>,
+    /// entities whose last signal clone went inside the current root tree: every runner exit collects, so they must be gone
+    /// when the tree ends
+    doomed_in_tree: Vec<EntId>,
     /// clones held by the harness (the rest of a signal's count is owned by entities)
     sig_harness: [usize; 4],
     deferred_bail: Option<String>,
@@ -299,7 +304,7 @@ macro_rules! fail {
     }};
 }
 
-fn is_floating(ev: &Ev) -> bool { matches!(ev, Ev::Drop(_) | Ev::Canary(_) | Ev::Bystander(_)) }
+fn is_floating(ev: &Ev) -> bool { matches!(ev, Ev::Drop(_) | Ev::Canary(_) | Ev::Bystander(_) | Ev::Gone(_)) }
 
 impl<'a> Checker<'a>
 {
@@ -315,7 +320,7 @@ impl<'a> Checker<'a>
             tokens: vec![None; prog.insts.len()], res: [0, 0, 0], res_t_present: true, payloads: HashMap::new(), pending_immediate_drop: None,
             polled: Vec::new(), postponed: Vec::new(), stack: Vec::new(), tree_depth: 0, seq: 0, sender: (DRIVER, 0),
             wr_keys: [Vec::new(), Vec::new()], sigs: vec![(None, 0); 4], doomed_ents: Vec::new(), resolve_uncertain: Vec::new(), fifo: HashMap::new(),
-            gc_guaranteed_this_step: false, in_direct_step: false, in_gc: false, sig_harness: [0; 4], deferred_bail: None, bulk_released: 0, bulk_held: 0, bulk_alive: 0, wq: Default::default(), iss_counter: 0, cur_iss: 0, iss_of: HashMap::new(), sys: Default::default(),
+            gc_guaranteed_this_step: false, in_direct_step: false, in_gc: false, gc_must: Vec::new(), doomed_in_tree: Vec::new(), sig_harness: [0; 4], deferred_bail: None, bulk_released: 0, bulk_held: 0, bulk_alive: 0, wq: Default::default(), iss_counter: 0, cur_iss: 0, iss_of: HashMap::new(), sys: Default::default(),
         }
     }
 
@@ -389,6 +394,31 @@ impl<'a> Checker<'a>
                 if self.pending_immediate_drop == Some(*id) { self.pending_immediate_drop = None; }
                 Ok(true)
             }
+            Ev::Gone(bits) =>
+            {
+                // the exact moment a slot entity goes (remove hook). Despawns the program asked for have been applied to the spec
+                // already; anything else must be a collection of an entity whose signal count reached zero (or a descendant).
+                let Some(e) = self.ents.iter().rposition(|x| x.real == *bits) else { return Ok(true) };
+                if !self.ents[e].alive { return Ok(true); }
+                if self.doomed_ents.contains(&e) || self.has_doomed_ancestor(e)
+                {
+                    self.stats.collected_observed += 1;
+                    self.doomed_ents.retain(|x| *x != e);
+                    let saved = self.in_gc;
+                    self.in_gc = true;
+                    self.despawn_rec(e);
+                    self.in_gc = saved;
+                    return Ok(true);
+                }
+                // (the spec may not have applied the op that explains it yet: judged when the next structural event is consumed)
+                if !last_chance { return Ok(false); }
+                self.pos = fpos;
+                if self.sigs.iter().any(|(se, n)| *se == Some(e) && *n > 0) || self.is_descendant_of_signal(e)
+                {
+                    fail!(self, "C10", "premature-autodespawn", &[], "entity {bits:#x} was despawned while a clone of its signal (or of an ancestor's) still exists");
+                }
+                fail!(self, "C18", "entity-liveness", &["C10", "C08"], "entity {bits:#x} was despawned although nothing in the program despawns it");
+            }
             Ev::Canary(i) =>
             {
                 let t = &self.insts[*i as usize];
@@ -437,6 +467,7 @@ impl<'a> Checker<'a>
     fn advance(&mut self) -> Res<()>
     {
         self.judge_floats(true)?;
+        if !self.gc_must.is_empty() { self.gc_deadline()?; }
         self.pos += 1;
         Ok(())
     }
@@ -741,8 +772,14 @@ impl<'a> Checker<'a>
         {
             self.stats.sig_zero += 1;
             if self.in_gc { self.stats.sig_zero_during_gc += 1; }
-            if !(self.in_gc || self.in_direct_step) { self.deferred_bail = Some("last signal clone dropped inside a batch or tree (placement of in-tree collections is unspecified)".into()); }
-            if let Some(e) = self.sigs[k].0 { self.doomed_ents.push(e); }
+            if let Some(e) = self.sigs[k].0
+            {
+                if self.ents[e].alive
+                {
+                    self.doomed_ents.push(e);
+                    if self.tree_depth > 0 && !self.in_gc { self.doomed_in_tree.push(e); self.stats.sig_zero_in_tree += 1; }
+                }
+            }
         }
     }
 
@@ -751,16 +788,27 @@ impl<'a> Checker<'a>
         self.stats.guaranteed_gc += 1;
         self.gc_guaranteed_this_step = true;
         for k in std::mem::take(&mut self.sys.doomed) { if let Some(s) = self.sys.spawned[k].as_mut() { s.1 = false; } }
-        let doomed = std::mem::take(&mut self.doomed_ents);
+        // The entities themselves are observed going (`Gone` events): whatever had no clone left when this collection started
+        // must be gone when it is over. (An entity released *during* the pass -- its last clone was owned by something the
+        // pass despawned -- may go now or with the next collection.)
+        for e in self.doomed_ents.clone() { if self.ents[e].alive && !self.gc_must.contains(&e) { self.gc_must.push(e); } }
         let before: Vec<bool> = self.insts.iter().map(|t| t.doomed).collect();
-        // An entity this collection despawns may own the last clone of another signal: that one reached zero *during* the
-        // collection, so the first collection *after* it is the next one. It stays in `doomed_ents` (alive or gone, not
-        // judged) until then.
-        self.in_gc = true;
-        for e in doomed { self.despawn_rec(e); }
-        self.in_gc = false;
         // a collection keeps going until nothing is left to collect: reactors released by what it despawned go too
         for (i, t) in self.insts.iter_mut().enumerate() { if t.doomed && t.alive && !t.busy { t.alive = false; if !before[i] { t.chain_doomed = true; } } }
+    }
+
+    /// After a guaranteed collection (and the `Gone` events it produced) has been consumed.
+    fn gc_deadline(&mut self) -> Res<()>
+    {
+        for e in std::mem::take(&mut self.gc_must)
+        {
+            if self.ents[e].alive
+            {
+                let bits = self.real(e);
+                fail!(self, "C10", "autodespawn-leak", &[], "entity {bits:#x} survived a garbage collection although every clone of its signal had been dropped before the collection started");
+            }
+        }
+        Ok(())
     }
 
     //---------------------------------------------------------------------------------------------------------------
@@ -1245,6 +1293,14 @@ impl<'a> Checker<'a>
         self.tree_depth -= 1;
         if root
         {
+            for e in std::mem::take(&mut self.doomed_in_tree)
+            {
+                if self.ents[e].alive
+                {
+                    let bits = self.real(e);
+                    fail!(self, "C10", "autodespawn-leak", &["C11"], "entity {bits:#x} lost the last clone of its signal inside a reaction tree and is still there when the tree has ended (every system command boundary collects)");
+                }
+            }
             self.flush_polled(true)?;
             if let Some(p) = self.postponed.first()
             {
@@ -2191,9 +2247,9 @@ impl<'a> Checker<'a>
             {
                 return Err(Stop::Bail(Bail("bulk signals are not collected before other work (not generated)".into())));
             }
-            if (!self.doomed_ents.is_empty() || !self.sys.doomed.is_empty()) && !matches!(step, Step::Direct(WOp::Gc) | Step::Direct(WOp::SigClone(_)) | Step::Direct(WOp::SigDrop(_)) | Step::Direct(WOp::SigPrepare(..)) | Step::Direct(WOp::SigMoveInto(..)) | Step::Direct(WOp::Reparent(..)) | Step::Direct(WOp::SigBulk(..)) | Step::Update | Step::AppSetup)
+            if !self.sys.doomed.is_empty() && !matches!(step, Step::Direct(WOp::Gc) | Step::Direct(WOp::SigClone(_)) | Step::Direct(WOp::SigDrop(_)) | Step::Direct(WOp::SigPrepare(..)) | Step::Direct(WOp::SigMoveInto(..)) | Step::Direct(WOp::Reparent(..)) | Step::Direct(WOp::SigBulk(..)) | Step::Update | Step::AppSetup)
             {
-                return Err(Stop::Bail(Bail("an entity whose last signal clone was dropped is not collected before other work (placement of in-tree collections is unspecified)".into())));
+                return Err(Stop::Bail(Bail("a ref-counted spawned system whose signal was dropped is not collected before other work (placement of in-tree collections is unspecified)".into())));
             }
             match step
             {
